@@ -1308,7 +1308,13 @@ func (a *align) Mask(refseq string, start, length int, maskreplace string, nogap
 	}
 
 	var refchar uint8 = '.'
-	for i := start; i < (start+length) && i < a.Length(); i++ {
+	// The window is truncated at the end of the alignment
+	// (start+length may overflow for very large lengths)
+	end := a.Length()
+	if length < end-start {
+		end = start + length
+	}
+	for i := start; i < end; i++ {
 		if refseq != "" && noref {
 			refchar = refSequence.CharAt(i)
 		}
